@@ -215,6 +215,7 @@ class MinPathCoverCycles(walkmodel.AbstractWalkModelDiGraph):
 
         if self._lowerbound_k is None:
             stG = stdigraph.stDiGraph(self.G)
-            self._lowerbound_k = stG.get_width(edges_to_ignore=self.edges_to_ignore)
+            # The global source / sink edges of the fresh stDiGraph need not be covered: ignore them too (as the k-models do)
+            self._lowerbound_k = stG.get_width(edges_to_ignore=list(self.edges_to_ignore) + list(stG.source_sink_edges))
 
         return self._lowerbound_k
